@@ -41,7 +41,7 @@ Premise(p) ==
          /\ PrmSame(a, b) /\ NAbove(b.raw, a.prm) = 0
          /\ Kept(b.raw, a.prm) = Crop(a.raw, a.prm)
     [] p.kind \in {"c10", "c13"} -> PrmSame(a, b) /\ a.raw = b.raw
-    [] p.kind = "c12" -> a.raw = b.raw            \* that every route delivers the same parameters is C12 itself, not a premise
+    [] p.kind \in {"c11", "c12"} -> a.raw = b.raw            \* that every route delivers the same parameters is C12 itself, not a premise
     [] p.kind = "c16" ->
          /\ b.raw = RenameRows(p, a.raw)
          /\ (a.events[1].res # "ok" \/ b.events[1].res # "ok" \/ b.prm = [a.prm EXCEPT !.excl = [j \in Idx(a.prm.excl) |-> Rho(p, a.prm.excl[j])]])
@@ -51,14 +51,14 @@ SameTables(ea, eb) == ea.tbl = eb.tbl /\ ea.hast = eb.hast /\ ea.nrep = eb.nrep
 SameIds(ea, eb) == ea.ids = eb.ids /\ ea.has = eb.has
 
 StepFails(p, k) ==
-  LET ea == p.a.events[k]  eb == p.b.events[k]  P == IF p.kind \in {"c07new", "c07blank"} THEN "C07" ELSE IF p.kind = "c10" THEN "C10" ELSE IF p.kind = "c12" THEN "C12" ELSE IF p.kind = "c13" THEN "C13" ELSE "C16" IN
+  LET ea == p.a.events[k]  eb == p.b.events[k]  P == IF p.kind \in {"c07new", "c07blank"} THEN "C07" ELSE IF p.kind = "c10" THEN "C10" ELSE IF p.kind = "c11" THEN "C11" ELSE IF p.kind = "c12" THEN "C12" ELSE IF p.kind = "c13" THEN "C13" ELSE "C16" IN
   (IF k = 1 THEN Chk("X_Premise", Premise(p)) ELSE {}) \cup
-  (IF k = 1 /\ p.kind = "c12" THEN Chk("C12_SameParams", PrmSame(p.a, p.b)) ELSE {}) \cup
+  (IF k = 1 /\ p.kind \in {"c11", "c12"} THEN Chk(P \o "_SameParams", PrmSame(p.a, p.b)) ELSE {}) \cup
   Chk(P \o "_SameOutcome", ea.res = eb.res /\ ea.exc = eb.exc /\ ea.op = eb.op) \cup
   Chk(P \o "_SameTables", SameTables(ea, eb)) \cup
   Chk(P \o "_SameIds", SameIds(ea, eb)) \cup
   (IF p.kind = "c16" THEN Chk("C16_SameData", eb.data = RenameRows(p, ea.data) /\ ea.flag = eb.flag)
-   ELSE IF p.kind \in {"c10", "c12", "c13"} THEN Chk(P \o "_SameData", eb.data = ea.data /\ ea.flag = eb.flag)
+   ELSE IF p.kind \in {"c10", "c11", "c12", "c13"} THEN Chk(P \o "_SameData", eb.data = ea.data /\ ea.flag = eb.flag)
    ELSE Chk("C07_SameData", eb.data = ea.data)) \cup
   (IF p.kind # "c07blank" THEN Chk(P \o "_SameMessage", ea.msg = eb.msg /\ ea.hasmsg = eb.hasmsg) ELSE {}) \cup
   (IF p.kind = "c07new" THEN Chk("C07_SameFlag", ea.flag = eb.flag) ELSE {})
